@@ -409,7 +409,9 @@ func totalFanout(g *FG, x *GNode) (bool, string) {
 
 // freshSlice: e is a local variable of f (declaration scope) whose every assignment is
 // make(...), a composite literal, append(<itself or fresh>, ...), a re-slice of itself, or e is itself a composite literal.
-func (ix *PkgIndex) freshSlice(f *FuncInfo, e ast.Expr) bool {
+func (ix *PkgIndex) freshSlice(f *FuncInfo, e ast.Expr) bool { return ix.freshSliceD(f, e, 0) }
+
+func (ix *PkgIndex) freshSliceD(f *FuncInfo, e ast.Expr, depth int) bool {
 	info := f.Info()
 	e = unparen(e)
 	if _, ok := e.(*ast.CompositeLit); ok {
@@ -420,7 +422,7 @@ func (ix *PkgIndex) freshSlice(f *FuncInfo, e ast.Expr) bool {
 		return false
 	}
 	outer := ix.Outer(f)
-	if outer == nil || v.Pos() < outer.Body().Pos() || v.Pos() > outer.Body().End() {
+	if outer == nil || !definedIn(info, outer.Body(), v) || depth > 3 {
 		return false
 	}
 	ok := true
@@ -450,7 +452,13 @@ func (ix *PkgIndex) freshSlice(f *FuncInfo, e ast.Expr) bool {
 		case *ast.SliceExpr:
 			return sameVar(info, r.X, v)
 		case *ast.Ident:
-			return isNilIdent(info, r)
+			if isNilIdent(info, r) {
+				return true
+			}
+			// another local of the function that is itself built fresh here (out := make(…); out = append(out, old…))
+			if o, isV := info.Uses[r].(*types.Var); isV && types.Object(o) != types.Object(v) && !o.IsField() {
+				return ix.freshSliceD(f, r, depth+1)
+			}
 		}
 		return false
 	}
